@@ -84,20 +84,18 @@ Lemma files_text_safe_parts le st :
   /\ (forall l, k_tcp6 st = Some l -> text_safe (k_ifile le hdr_tcp6 l) = true)
   /\ text_safe (k_ifile le hdr_udp (k_udp4 st)) = true
   /\ (forall l, k_udp6 st = Some l -> text_safe (k_ifile le hdr_udp6 l) = true)
-  /\ text_safe (k_ufile (k_unix st)) = true.
+  /\ unix_heads_safe st = true.
 Proof.
-  unfold files_text_safe. cbn [forallb].
+  unfold files_text_safe. intros H. apply andb_true_iff in H as [H HU]. revert H. cbn [forallb].
   change (k_files le st (bs "tcp")) with (Some (k_ifile le hdr_tcp (k_tcp4 st))).
   change (k_files le st (bs "tcp6")) with (option_map (k_ifile le hdr_tcp6) (k_tcp6 st)).
   change (k_files le st (bs "udp")) with (Some (k_ifile le hdr_udp (k_udp4 st))).
   change (k_files le st (bs "udp6")) with (option_map (k_ifile le hdr_udp6) (k_udp6 st)).
-  change (k_files le st (bs "unix")) with (Some (k_ufile (k_unix st))).
   intros H.
   apply andb_true_iff in H as [H1 H]. apply andb_true_iff in H as [H2 H].
-  apply andb_true_iff in H as [H3 H]. apply andb_true_iff in H as [H4 H].
-  apply andb_true_iff in H as [H5 _].
+  apply andb_true_iff in H as [H3 H]. apply andb_true_iff in H as [H4 _].
   split; [exact H1|]. split; [intros l E; rewrite E in H2; exact H2|].
-  split; [exact H3|]. split; [intros l E; rewrite E in H4; exact H4|]. exact H5.
+  split; [exact H3|]. split; [intros l E; rewrite E in H4; exact H4|]. exact HU.
 Qed.
 
 (* which sockets of a table are shown on a host described by the oracle *)
@@ -141,6 +139,7 @@ Section Protos.
   Hypothesis Hwf : wf_state st = true.
   Hypothesis Hsafe : files_text_safe le st = true.
   Hypothesis Ho : no_v6_failure o.
+  Hypothesis Hug : unix_guard v st = true.
 
   Lemma P_tcp4 : proto_rows v le o (k_files le st) lk filt p_tcp4 = Val (R_inet lk filt 2 1 (k_tcp4 st)).
   Proof.
@@ -192,11 +191,12 @@ Section Protos.
   Proof.
     intros Hux.
     apply wf_state_parts in Hwf as (_ & _ & _ & _ & _ & _ & WU & _).
-    apply files_text_safe_parts in Hsafe as (_ & _ & _ & _ & TX).
+    unfold unix_guard in Hug. apply andb_true_iff in Hug as [G1 G2].
     unfold proto_rows, p_unix. cbv beta iota.
     change ((1 =? AF_INET) || (1 =? AF_INET6)) with false. cbv iota.
     change (k_files le st (bs "unix")) with (Some (k_ufile (k_unix st))).
-    apply process_unix_ok; [exact WU|exact Hux|exact TX].
+    apply process_unix_ok; [exact WU|exact Hux|exact G1|].
+    apply orb_true_iff in G2 as [G2|G2]; [now left|right; now apply negb_true_iff in G2].
   Qed.
 
   Lemma retrieve_ok kind :
@@ -400,7 +400,7 @@ Qed.
 
 (* ------------------------------------------------------------ the theorems *)
 Theorem system_wide v le o st kind :
-  wf_state st = true -> files_text_safe le st = true -> In kind kinds -> no_v6_failure o ->
+  wf_state st = true -> files_text_safe le st = true -> unix_guard v st = true -> In kind kinds -> no_v6_failure o ->
   (covers_unix kind = true -> (v_merge v = true \/ unix_unshared st = true)
                               /\ (v_exact v = true \/ no_lead_ws st = true)) ->
   exists adds, net_connections_adds v le o (k_files le st) (to_procs (k_procs st)) kind = Val adds
@@ -408,9 +408,9 @@ Theorem system_wide v le o st kind :
                /\ net_connections v le o (k_files le st) (to_procs (k_procs st)) kind = Val (as_set adds)
                /\ net_log v le o (k_files le st) (to_procs (k_procs st)) kind = spec_log kind st.
 Proof.
-  intros Hwf Hsafe Hk Ho Hux.
+  intros Hwf Hsafe Hug Hk Ho Hux.
   pose proof (wf_state_parts st Hwf) as (_ & _ & _ & _ & _ & _ & _ & WP).
-  destruct (retrieve_ok v le o st (lookup_v v (dicts (k_procs st))) None (lookup_v_lk_ok v _) Hwf Hsafe Ho kind Hk)
+  destruct (retrieve_ok v le o st (lookup_v v (dicts (k_procs st))) None (lookup_v_lk_ok v _) Hwf Hsafe Ho Hug kind Hk)
     as [HR HL]; [intros H; now apply Hux|].
   assert (HA : net_connections_adds v le o (k_files le st) (to_procs (k_procs st)) kind
                = retrieve v le o (k_files le st) kind (lookup_v v (dicts (k_procs st))) None).
@@ -478,7 +478,7 @@ Proof.
 Qed.
 
 Theorem per_process v le o st p kind :
-  wf_state st = true -> files_text_safe le st = true -> wf_kproc p = true -> p_visible p = true ->
+  wf_state st = true -> files_text_safe le st = true -> unix_guard v st = true -> wf_kproc p = true -> p_visible p = true ->
   In kind kinds -> no_v6_failure o ->
   (covers_unix kind = true -> v_exact v = true \/ no_lead_ws st = true) ->
   exists adds, proc_net_connections_adds v le o (k_files le st) (p_pid p) (to_listing p) kind = Val adds
@@ -486,7 +486,7 @@ Theorem per_process v le o st p kind :
                /\ proc_net_connections v le o (k_files le st) (p_pid p) (to_listing p) kind = Val (as_set adds)
                /\ proc_log v le o (k_files le st) (p_pid p) (to_listing p) kind = spec_proc_log p kind st.
 Proof.
-  intros Hwf Hsafe Hp Hv Hk Ho Hux. unfold spec_proc_log.
+  intros Hwf Hsafe Hug Hp Hv Hk Ho Hux. unfold spec_proc_log.
   assert (HI : get_proc_inodes (p_pid p) (map to_ent (p_fds p)) = Val (sock_pairs p)).
   { unfold wf_kproc in Hp. now rewrite get_proc_inodes_ok by exact Hp. }
   unfold proc_net_connections, proc_net_connections_adds, proc_log.
@@ -500,7 +500,7 @@ Proof.
   - assert (Hn : holds_no_socket p = false).
     { destruct (holds_no_socket p) eqn:E; [|reflexivity]. rewrite holds_no_socket_pairs in Ed by exact E. discriminate. }
     rewrite Hn. rewrite <- Ed.
-    destruct (retrieve_ok v le o st (lookup1 (sock_pairs p)) (Some (p_pid p)) (lookup1_lk_ok _) Hwf Hsafe Ho kind Hk Hux)
+    destruct (retrieve_ok v le o st (lookup1 (sock_pairs p)) (Some (p_pid p)) (lookup1_lk_ok _) Hwf Hsafe Ho Hug kind Hk Hux)
       as [HR HL].
     rewrite HR. eexists. split; [reflexivity|]. split; [|split; [reflexivity|]].
     + destruct (restrict6_parts o st) as (E1 & E2 & E3 & E4 & E5 & E6).
@@ -534,14 +534,14 @@ Qed.
 
 Theorem system_wide_first v le o st kind :
   v_merge v = true ->
-  wf_state st = true -> files_text_safe le st = true -> In kind kinds -> no_v6_failure o ->
+  wf_state st = true -> files_text_safe le st = true -> unix_guard v st = true -> In kind kinds -> no_v6_failure o ->
   (covers_unix kind = true -> v_exact v = true \/ no_lead_ws st = true) ->
   exists adds, net_connections_adds v le o (k_files le st) (to_procs (k_procs st)) kind = Val adds
                /\ Forall2 row_ok adds (spec_sys_first kind (restrict6 o st)).
 Proof.
-  intros Hm Hwf Hsafe Hk Ho Hux.
+  intros Hm Hwf Hsafe Hug Hk Ho Hux.
   pose proof (wf_state_parts st Hwf) as (_ & _ & _ & _ & _ & _ & _ & WP).
-  destruct (retrieve_ok v le o st (lookup_v v (dicts (k_procs st))) None (lookup_v_lk_ok v _) Hwf Hsafe Ho kind Hk Hux)
+  destruct (retrieve_ok v le o st (lookup_v v (dicts (k_procs st))) None (lookup_v_lk_ok v _) Hwf Hsafe Ho Hug kind Hk Hux)
     as [HR _].
   unfold net_connections_adds. rewrite check_kind_good by exact Hk. cbn [obind].
   rewrite get_all_inodes_ok by exact WP. cbn [obind]. rewrite HR.
@@ -550,6 +550,16 @@ Proof.
   unfold spec_sys_first, spec_entries2. rewrite E1, E2, E3, E4, E5, E6. rewrite (unix_entries_on _ kind _ Hk).
   repeat apply Forall2_app; apply Forall2_on; intros Hb; try (now apply sys_inet_rows_first).
   apply sys_unix_rows. now left.
+Qed.
+
+(* for the code as it is now the guard of the unix file is implied: only the fixed-format part of a record matters *)
+Lemma unix_guard_current le st : wf_state st = true -> files_text_safe le st = true -> unix_guard current st = true.
+Proof.
+  intros Hwf Hsafe. apply wf_state_parts in Hwf as (_ & _ & _ & _ & _ & _ & WU & _).
+  apply files_text_safe_parts in Hsafe as (_ & _ & _ & _ & HU).
+  unfold unix_guard. change (v_lf current) with true. rewrite andb_true_r.
+  unfold unix_heads_safe in HU. rewrite forallb_forall in *. intros u Hu.
+  rewrite line_guard_exact; [now apply HU|reflexivity|now apply WU].
 Qed.
 
 (* the code as it is now on a host with working IPv6: no exclusion, the state itself *)
@@ -564,7 +574,7 @@ Corollary system_wide_current le st kind :
                /\ net_log current le ipv6_ok (k_files le st) (to_procs (k_procs st)) kind = spec_log kind st.
 Proof.
   intros Hwf Hsafe Hk.
-  apply (system_wide current le ipv6_ok st kind Hwf Hsafe Hk); [left; reflexivity|].
+  apply (system_wide current le ipv6_ok st kind Hwf Hsafe (unix_guard_current le st Hwf Hsafe) Hk); [left; reflexivity|].
   intros _. split; left; reflexivity.
 Qed.
 Corollary system_wide_first_current le st kind :
@@ -573,7 +583,7 @@ Corollary system_wide_first_current le st kind :
                /\ Forall2 row_ok adds (spec_sys_first kind st).
 Proof.
   intros Hwf Hsafe Hk.
-  apply (system_wide_first current le ipv6_ok st kind eq_refl Hwf Hsafe Hk); [left; reflexivity|].
+  apply (system_wide_first current le ipv6_ok st kind eq_refl Hwf Hsafe (unix_guard_current le st Hwf Hsafe) Hk); [left; reflexivity|].
   intros _. left; reflexivity.
 Qed.
 Corollary per_process_current le st p kind :
@@ -585,7 +595,7 @@ Corollary per_process_current le st p kind :
                /\ proc_log current le ipv6_ok (k_files le st) (p_pid p) (to_listing p) kind = spec_proc_log p kind st.
 Proof.
   intros Hwf Hsafe Hp Hv Hk.
-  apply (per_process current le ipv6_ok st p kind Hwf Hsafe Hp Hv Hk); [left; reflexivity|].
+  apply (per_process current le ipv6_ok st p kind Hwf Hsafe (unix_guard_current le st Hwf Hsafe) Hp Hv Hk); [left; reflexivity|].
   intros _. left; reflexivity.
 Qed.
 
@@ -602,7 +612,7 @@ Corollary ipv6_unsupported le st kind :
                /\ k_udp6 (restrict6 o st) = option_map (filter ports_zero) (k_udp6 st).
 Proof.
   intros o Hwf Hsafe Hk.
-  destruct (system_wide current le o st kind Hwf Hsafe Hk) as (adds & HA & HF & _).
+  destruct (system_wide current le o st kind Hwf Hsafe (unix_guard_current le st Hwf Hsafe) Hk) as (adds & HA & HF & _).
   - right. reflexivity.
   - intros _. split; left; reflexivity.
   - exists adds. repeat split; assumption || reflexivity.
@@ -709,5 +719,47 @@ Proof. vm_compute. repeat split; try reflexivity. eexists. repeat split; reflexi
 Example unix_items_example :
   let items := [USock (ex_unix (bs "600") (bs "/tmp/a b") UStream);
                 UJunk (bs "000000000000000000000000000000000000000000000000000000"); UJunk []] in
-  forallb uitem_ok items = true /\ text_safe (k_ufile_items items) = true /\ length (socks_of items) = 1%nat.
+  forallb uitem_ok items = true /\ forallb (fun i => line_guard current (k_uitem i)) items = true
+  /\ length (socks_of items) = 1%nat.
 Proof. vm_compute. repeat split; reflexivity. Qed.
+
+(* ------------------------------------------------------------ names with CR / LF / exotic white space *)
+Definition before_0e98900 : variant := {| v_merge := true; v_exact := true; v_lf := false |}.
+Definition name_cr : bytes := bs "/tmp/a" ++ [13] ++ bs "b c".
+Definition name_odd : bytes := [32; 13; 28; 194; 160; 226; 128; 168; 9; 255] ++ bs " x " ++ [31].   (* blank CR FS NBSP LS tab \xff ... US *)
+
+(* the code before 0e98900 read the unix file with universal newlines: a name holding a CR split its record
+   and the whole call failed, for every caller *)
+Lemma unix_cr_refuted :
+  exists st, wf_state st = true /\ files_text_safe true st = true
+             /\ length (spec_sys (bs "unix") st) = 2%nat
+             /\ net_connections_adds before_0e98900 true ipv6_ok (k_files true st) (to_procs (k_procs st)) (bs "unix")
+                = Exc RuntimeError.
+Proof. exists (ex_state false name_cr). vm_compute. repeat split; reflexivity. Qed.
+
+(* the current code returns such names whole: CR, FS, NBSP, LINE SEPARATOR, tab, undecodable bytes, leading and
+   trailing blanks -- the states are in the domain of the main theorems *)
+Example unix_odd_names :
+  let st := ex_state true name_odd in
+  wf_state st = true /\ files_text_safe true st = true
+  /\ (exists rows, net_connections_adds current true ipv6_ok (k_files true st) (to_procs (k_procs st)) (bs "unix") = Val rows
+                   /\ map r_laddr rows = [APath name_odd; APath name_odd; APath name_odd; APath (bs "@abstract name")])
+  /\ (exists rows, net_connections_adds current true ipv6_ok (k_files true (ex_state false name_cr))
+                                         (to_procs (k_procs (ex_state false name_cr))) (bs "unix") = Val rows
+                   /\ map r_laddr rows = [APath name_cr; APath (bs "@abstract name")]).
+Proof.
+  vm_compute. split; [reflexivity|]. split; [reflexivity|].
+  split; eexists; split; reflexivity.
+Qed.
+
+(* the excluded class, precisely: a name holding LF.  The kernel prints it raw (unix_seq_show), so the record is
+   split.  When the tail holds a blank the whole call fails (RuntimeError); when it holds none the tail is
+   skipped (issue 766) and the name is silently cut at the LF *)
+Lemma unix_name_with_lf_splits :
+  let u1 := ex_unix (bs "600") (bs "/tmp/a" ++ [10] ++ bs "b c") UStream in
+  let u2 := ex_unix (bs "600") (bs "/tmp/a" ++ [10] ++ bs "b") UStream in
+  wf_usock u1 = false /\ wf_usock u2 = false
+  /\ process_unix current (Some (k_ufile [u1])) 1 (fun _ => None) None = Exc RuntimeError
+  /\ exists rows, process_unix current (Some (k_ufile [u2])) 1 (fun _ => None) None = Val rows
+                  /\ map r_laddr rows = [APath (bs "/tmp/a")].
+Proof. vm_compute. repeat split; try reflexivity. eexists. split; reflexivity. Qed.
